@@ -144,14 +144,52 @@ def mahony(chk, prog):
                 code_om = to_obj(env["omega_mes"])
                 return all_of(eq(code_om, om_u, "omega_mes == a x v_a"), eq(Vdot_u, want, "dV/dt"))
             chk.ob("FEEDBACK.lyapunov", f.ref, "dV/dt == -k_P |a x v_a|^2 along qdot = 1/2 q (x) (0, k_P omega_mes), V = 1 - a.v_a(q)", lyapunov, construct="Lyapunov descent", **kw)
-        # PI structure: bDot = -k_I * omega_mes ; Omega = Omega - b + k_P * omega_mes
-        txt = ast.unparse(f.node)
-        ok = "bDot = -self.k_I * omega_mes" in txt and "self.b += bDot * dt" in txt and "Omega = Omega - self.b + self.k_P * omega_mes" in txt
-        if ok:
-            chk.record("FEEDBACK.pi", f.ref, "bDot = -k_I omega_mes; Omega = gyr - b + k_P omega_mes")
+        # PI structure by AVN: new bias == b - k_I*omega_mes*dt ; result == normalise(q + dt/2 q (x) (0, gyr - b_new + k_P*omega_mes))
+        def pi_law():
+            qu = unit_syms("pq")
+            a_ = unit_vec("pa")
+            b0 = sym_vec("pb", 3)
+            it = Interp(prog, oracle=lambda c, i: True if c.op == ">" else None)
+            obj = it.make_obj(F + "mahony.py::Mahony", Dt=dt, k_P=kP, k_I=kI, b=b0.copy())
+            if marg:
+                bu = unit_vec("pm")
+                out = it.run(f, [qu, w, a_, bu], {"dt": dt}, self_obj=obj)
+            else:
+                out = it.run(f, [qu, w, a_], {"dt": dt}, self_obj=obj)
+            om = to_obj(it.last_env.vars["omega_mes"])
+            b_new = to_obj(obj.attrs["b"])
+            rate = w - b_new + kP * om
+            from sa.lib import normalized
+            want = normalized(qu + hamilton_ref(qu, np.concatenate([[P.ZERO], rate])) * dt / 2)
+            return all_of(eq(b_new, b0 - kI * om * dt, "bias update"), eq(out, want, "corrected step"))
+        if not marg:
+            chk.ob("FEEDBACK.pi", f.ref, "b += -k_I omega_mes dt and the step integrates gyr - b + k_P omega_mes", pi_law, construct="PI correction", **kw)
         else:
-            chk.record("FEEDBACK.pi", f.ref, "PI correction has the documented signs", verdict="VIOLATION")
-            chk.finding("FEEDBACK.pi", f.module.rel, f.qname, "PI correction terms", "the proportional/integral correction no longer reads bDot = -k_I*omega_mes, b += bDot*dt, Omega = Omega - b + k_P*omega_mes", line=f.node.lineno)
+            # MARG: same structure, checked through value numbers of the bias update and of Omega
+            info = {}
+
+            class G(Facts):
+                def s_AugAssign(self2, s, st):
+                    if isinstance(s.target, ast.Attribute) and s.target.attr == "b":
+                        info["b_op"] = type(s.op).__name__
+                        info["b_rhs"] = self2.vn(s.value, st)
+                        info["om"] = st.get("v:omega_mes")
+                    return super().s_AugAssign(s, st)
+
+                def s_Assign(self2, s, st):
+                    out = super().s_Assign(s, st)
+                    if isinstance(s.targets[0], ast.Name) and s.targets[0].id == "Omega" and "S:k_P" in (st.get("v:Omega") or ""):
+                        info["Omega"] = st.get("v:Omega")
+                    return out
+            G(f, prog).analyse()
+            om = info.get("om") or "?"
+            ok = info.get("b_op") == "Add" and info.get("b_rhs") is not None and "neg(S:k_I)" in info["b_rhs"] and om in info["b_rhs"] \
+                and info.get("Omega") is not None and ("Mult(%s,S:k_P)" % om in info["Omega"] or "Mult(S:k_P,%s)" % om in info["Omega"]) and "Sub(" in info["Omega"]
+            if ok:
+                chk.record("FEEDBACK.pi", f.ref, "b += (-k_I omega_mes) dt; Omega = gyr - b + k_P omega_mes (value numbers)")
+            else:
+                chk.record("FEEDBACK.pi", f.ref, "PI correction has the documented signs", verdict="VIOLATION", detail=str(info)[:300])
+                chk.finding("FEEDBACK.pi", f.module.rel, f.qname, "PI correction terms", "the bias integrator / proportional term no longer value-number to b += -k_I*omega_mes*dt and Omega = gyr - b + k_P*omega_mes", line=f.node.lineno)
 
 
 def ekf(chk, prog):
